@@ -47,7 +47,12 @@ let () =
         let dc = { X86.d_lock = b lock; d_f2 = b f2; d_f3 = b f3; d_seg = zi seg; d_k = zi k; d_z = b z; d_rc = zi rc } in
         let (v, cands) = X86.judge X86.bucket X86.wbucket X86.row_of m (zi name) (parse_ops ops) dc (bytes_of_hex hex) in
         let others = X86.other_names X86.bucket X86.wbucket X86.row_of m (zi name) (bytes_of_hex hex) in
-        Printf.printf "%s | %s | %s\n" (string_of_cz v) (String.concat ";" (List.map s_cand cands)) (String.concat "," (List.map string_of_cz others))
+        (* the mod field of the bytes against the model of AsmJit's choice (X86Choice.aj_mod), for the rows among the candidates *)
+        let mc = X86.mod_check X86.bucket m (bytes_of_hex hex) in
+        let cand_ids = List.map (fun (((rid, _), _), _) -> string_of_cz rid) cands in
+        let mcs = List.filter (fun (rid, _) -> List.mem (string_of_cz rid) cand_ids) mc in
+        Printf.printf "%s | %s | %s | %s\n" (string_of_cz v) (String.concat ";" (List.map s_cand cands)) (String.concat "," (List.map string_of_cz others))
+          (String.concat "," (List.map (fun (rid, ok) -> (string_of_cz rid) ^ (if ok then "+" else "-")) mcs))
       | "D" :: mode :: hex :: _ ->
         let m = if mode = "64" then X86.M64 else X86.M32 in
         let cands = X86.denote2 X86.bucket X86.wbucket m (bytes_of_hex hex) in
